@@ -39,6 +39,10 @@ CLAIMED = {
    "same enumeration (spec/Filter.tla, pointer classes) with the C08 branch oracle: well-formed pointer < 1024 bytes passes through clean unchanged and stores nothing; look-alikes and anything >= 1024 bytes are content in full; non-pointers pass through smudge",
    "All pointer classes (canonical, CRLF, padded to 1023 / 1024 / 1025 bytes, pointer + byte / + line / + 64 KiB / + data to 1500, upper-case oid; thorough adds extension and legacy-version pointers) x every delivery that puts a chunk boundary inside or exactly after the pointer text x front-ends x work-tree states. Invariants NoPointerToPointer and LookAlikeIsContent hold on the model; on the code: pass-through is byte-identical and the object store is unchanged, look-alikes get the canonical pointer of their full bytes, non-pointer bytes pass through smudge unchanged.",
    "As C01. The skip-smudge checkout followed by git add / stash / commit -a front-end is represented by the gitadd front-end with a pointer work-tree file.", "DESIGN.md §5 C08"),
+ "C19": ("exploration",
+   "TLA+ model of what the user asked to track (spec/Track.tla: literal names, glob patterns with a wildcard matcher defined in the spec) enumerated by TLC over names built from every character with a meaning in .gitattributes; real git lfs track/untrack run per behaviour; git check-attr over every name compared with the spec's set",
+   "TLC enumerates all sequences of <=2 operations (track --filename, track <pattern>, the same again, untrack) over all names of <=2 characters (thorough <=3) from 13 character classes (letter, space, tab, #, !, quote, * ? [ ] backslash, non-ASCII, dot), 4 glob patterns and 3 pre-existing .gitattributes classes (absent, comments+macro+other patterns, CRLF). After every step Git's own attribute lookup is asked about every name and must report filter=lfs for exactly the spec's set; attributes of unrelated patterns must be unchanged; re-running track must leave the file byte-identical.",
+   "Git 2.39's check-attr is the authority on matching. Nested directories, invocation from sub-directories and --lockable are not yet modelled. Eight genuine defects are recorded in known_findings.jsonl, each matched on the observed cause.", "DESIGN.md §5 C19"),
 }
 
 checks = []
